@@ -5,6 +5,7 @@ import (
 	"encoding/hex"
 	"fmt"
 	"hash/crc32"
+	"runtime"
 	"runtime/debug"
 	"strings"
 	"sync"
@@ -215,6 +216,21 @@ func (a *agent) poll(s *search.Search, o *search.Options) {
 	if a.closed || s.VerifAborted() {
 		if a.abortPoll == 0 {
 			a.abortPoll = a.polls
+		}
+		if !s.VerifAborted() {
+			// the engine may learn of the stop through a goroutine of its own (a
+			// watcher relaying the channel into a flag): let it run. The bound
+			// below is about polls the search executes although it could know.
+			// In the search-world the stop was closed by this very goroutine: a
+			// sleep on the simulated clock returns only once every other goroutine
+			// of the bubble is blocked again, i.e. after the relay has run
+			// (independent of how the OS schedules threads). In the uci-world the
+			// search is parked while the driver closes the channel.
+			if !a.extStop && a.after < 4 {
+				time.Sleep(time.Nanosecond)
+			} else {
+				runtime.Gosched()
+			}
 		}
 		a.after++
 		if a.after > livenessPolls {
